@@ -1,3 +1,12 @@
+// Reference implementation (specification) for the RealDecisionMaker verification framework.
+//
+// This file is NOT part of the repository build. The analyzer (/verif/analyzer) loads it as an
+// in-memory overlay next to the package it describes and compares, statically, the value graph of
+// every Spec_X declaration with that of the repository's X (see DESIGN.md, engine E5). Each
+// function states what the corresponding repository function has to compute according to
+// /verif/properties.jsonl; it was reviewed against the property statements, not generated at
+// check time, and it is never executed.
+
 package choquet
 
 import (
